@@ -1526,6 +1526,10 @@ def nd_getitem(eng, arr, idx):
         # a list of integers as index: numpy's integer (fancy) indexing
         idx = NDArr(list(idx.concrete()))
     if isinstance(idx, NDArr):
+        if idx.shape == arr.shape and all(isinstance(v, bool) for v in flat(idx.data)) and not all(flat(idx.data)):
+            # concrete boolean mask of the array's own shape: numpy's selection (a flat array of the selected elements)
+            import numpy as _np
+            return nd_from_obj(nd_to_obj(eng, arr)[_np.array(idx.data, dtype=bool)])
         if idx.shape == arr.shape:
             # boolean-mask selection: modelled as the full array; it is only meaningful when the
             # consumer is a store under the same mask (checked in setitem)
@@ -1635,6 +1639,18 @@ def setitem(eng, base, idx, v):
         return
     if isinstance(base, NDArr):
         import numpy as _np
+        if isinstance(idx, NDArr) and all(isinstance(v, int) and not isinstance(v, bool) for v in flat(idx.data)):
+            # concrete integer index array: numpy's fancy store
+            o = nd_to_obj(eng, base)
+            ia = _np.array(idx.data, dtype=int)
+            vo = nd_to_obj(eng, v)
+            try:
+                o[ia] = _np.broadcast_to(vo, o[ia].shape)
+            except (ValueError, IndexError) as ex:
+                raise PyRaise(ex.__class__.__name__, (str(ex)[:60],))
+            base.data = nd_from_obj(o).data
+            eng.note_write(('nd', base))
+            return
         if isinstance(idx, NDArr):
             # boolean-mask store; a mask with fewer axes selects whole sub-arrays (rows)
             msh, bsh = idx.shape, base.shape
